@@ -170,6 +170,10 @@ def fcoll_fn(n, strands, flags):
             conds += [NOT(mixed), mult(p, mb) == ITE(member(p, bl), 1, 0), m.feature_types == fc.feature_types]
         except ValueError:
             conds.append(mixed)
+        # aggregating leaves the members as they were: a collection re-built from any single member reports exactly that member's stated types
+        for i in range(n):
+            conds.append(fs[i].feature_types == set(types[i]))
+            conds.append(FeatureIntervalCollection([fs[i]], guid=398).feature_types == set(types[i]))
         return AND(*conds)
 
     return fn
